@@ -1,6 +1,6 @@
 import RlboxModel.Lemmas.StructLemmas
 import RlboxModel.Props.C04
-import RlboxModel.Props.C06
+import RlboxModel.Props.C06Core
 /-!
 # C08 — Struct marshalling follows the sandbox ABI layout and round-trips every field
 Property theorems only.
